@@ -96,6 +96,10 @@ def observe(text: str, toks: list) -> dict:
         o = project(info, False)
     except (ExpressionError, ParseError):
         return project(None, True)
+    except Exception as exc:  # noqa: BLE001 - whatever the code under test raises is an observation (an error), not a harness failure
+        o = project(None, True)
+        o["raw"] = ["CRASH:" + type(exc).__name__]
+        return o
     # licence pool index -> token index (a licence token at index i uses LICS[(i-1) % n])
     lic = []
     for j in o["lic"]:
@@ -142,6 +146,9 @@ def replay_case(case: dict) -> dict:
     toks, form, vis = case["toks"], case["form"], case["vis"]
     full = render(toks, list(range(1, len(toks) + 1)), form)
     twin = render(toks, vis, form)
+    if case.get("many"):
+        # any number of complete blocks in front changes nothing: they hide what they enclose and nothing else
+        full = (PREFIX[form] + S + " hidden SPDX-License-Identifier: WTFPL " + E + "\n") * case["many"] + full
     if form == "filepoison":
         o, t = observe_file(full, toks, True), observe_file(twin, toks, True)
     elif form == "file":
@@ -202,6 +209,8 @@ def run(ctx: core.Ctx) -> int:
                     vis.append(i)
         extra.append({"tid": len(cases) + j + 1, "toks": toks, "form": form, "vis": vis})
     cases += extra
+    for j, c in enumerate([c for c in cases if c["form"] in ("bare", "hash", "file")][:: 400 if q else 40]):
+        cases.append(dict(c, tid=len(cases) + 1, many=1200 + j))
     # 3. replay into the real code
     events = ctx.pmap(replay_case, cases)
     for ev in events[:: max(1, len(events) // 6)][:6]:
